@@ -3,48 +3,36 @@
 package authip
 
 // Contracts for authip.go, read by the rcvc verifier in /verif (comment-only; adds no code).
-// The admitted set is the ghost view of the embedded lock-free map (assumed contracts in /verif/spec/trusted/hashmap.spec).
+// The admitted set is the Go map currently published in IpMap.set (an atomic.Value; assumed contract of Load/Store in
+// /verif/spec/trusted/stdlib.spec): a reload builds a new map holding exactly the file's list and publishes it.
 
 //@ use yaml strs
 
-//@ define admitted(s) = IpMap.HashMap.view[box(s)]
+//@ define setmap(i) = cast("map[string]struct{}", i.set.held)
+//@ define isset(i) = i.set.held != nil && dyntype(i.set.held) == typetag("map[string]struct{}")
+//@ define admittedby(i, s) = isset(i) && has(setmap(i), s)
+//@ define admitted(s) = admittedby(IpMap, s)
+
+//@ func ipMap.admitted
+//@   props C18
+//@   flags pure
+//@   ensures[current] isset(i) ==> result == setmap(i)
+//@   ensures[none] !isset(i) ==> result == nil
 
 //@ func ipMap.Validate
 //@   props C18
 //@   flags pure
-//@   ensures[validate] result == (!i.enable || i.HashMap.view[box(ip)])
-
-//@ func ipMap.Insert
-//@   props C18
-//@   modifies i.HashMap.view
-//@   ensures[insert] forall k Ref :: i.HashMap.view[k] == (old(i.HashMap.view[k]) || k == box(key))
+//@   ensures[validate] result == (!i.enable || admittedby(i, ip))
 
 //@ define inlist(l, s) = exists i int :: 0 <= i && i < len(l) && l[i] == s
-//@ define tracked(a) = (forall k Ref :: IpMap.HashMap.view[k] ==> (exists j int :: 0 <= j && j < len(a.listed) && k == box(a.listed[j])))
-//@     && (forall j int :: 0 <= j && j < len(a.listed) ==> IpMap.HashMap.view[box(a.listed[j])])
-
-//@ func contains
-//@   props C18
-//@   flags pure
-//@   ensures[contains] result == inlist(list, s)
-//@   loop 0
-//@     invariant 0 <= rangeindex + 1 && rangeindex + 1 <= len(list)
-//@     invariant forall i int :: 0 <= i && i <= rangeindex ==> list[i] != s
 
 //@ func AuthIp.parseAuthIp
 //@   props C18
-//@   requires tracked(a)
-//@   ensures[keep] result != nil ==> IpMap.enable == old(IpMap.enable) && (forall k Ref :: IpMap.HashMap.view[k] == old(IpMap.HashMap.view[k]))
+//@   ensures[isset] (result == nil && IpMap.enable) ==> isset(IpMap)
+//@   ensures[keep] result != nil ==> IpMap.enable == old(IpMap.enable) && IpMap.set.held == old(IpMap.set.held)
 //@   ensures[enable] result == nil ==> IpMap.enable == (yaml_has_enable(curfile(a.name)) && yaml_enable(curfile(a.name)))
-//@   ensures[tracked] tracked(a)
 //@   ensures[exact] (result == nil && IpMap.enable) ==> (forall s string :: admitted(s) == (yaml_has_list(curfile(a.name)) && yaml_listed(curfile(a.name), s)))
 //@   loop 0
-//@     modifies IpMap.HashMap.view
-//@     invariant 0 <= rangeindex + 1 && rangeindex + 1 <= len(a.listed)
-//@     invariant forall k Ref :: IpMap.HashMap.view[k] ==> (exists j int :: 0 <= j && j < len(a.listed) && k == box(a.listed[j]) && (j > rangeindex || inlist(auth.IpList, a.listed[j])))
-//@     invariant forall j int :: (0 <= j && j < len(a.listed) && inlist(auth.IpList, a.listed[j])) ==> IpMap.HashMap.view[box(a.listed[j])]
-//@   loop 1
-//@     modifies IpMap.HashMap.view
-//@     invariant 0 <= rangeindex#1 + 1 && rangeindex#1 + 1 <= len(auth.IpList)
-//@     invariant forall k Ref :: IpMap.HashMap.view[k] ==> ((exists j int :: 0 <= j && j < len(a.listed) && k == box(a.listed[j]) && inlist(auth.IpList, a.listed[j])) || (exists i int :: 0 <= i && i <= rangeindex#1 && k == box(auth.IpList[i])))
-//@     invariant forall i int :: (0 <= i && i <= rangeindex#1) ==> IpMap.HashMap.view[box(auth.IpList[i])]
+//@     modifies mapof(set)
+//@     invariant 0 <= rangeindex + 1 && rangeindex + 1 <= len(auth.IpList) && set != nil && fresh(set)
+//@     invariant forall s string :: has(set, s) == (exists i int :: 0 <= i && i <= rangeindex && auth.IpList[i] == s)
